@@ -22,7 +22,7 @@ type rawResult struct {
 func runWorkerRaw(b *Build, args []string, timeout time.Duration) rawResult {
 	ctx, cancel := context.WithTimeout(context.Background(), timeout)
 	defer cancel()
-	cmd := exec.CommandContext(ctx, b.Plain, args...)
+	cmd := exec.CommandContext(ctx, b.Plain, b.withHot(args)...)
 	cmd.Env = append(os.Environ(), "GOMAXPROCS=1")
 	var so, se bytes.Buffer
 	cmd.Stdout, cmd.Stderr = &so, &se
@@ -73,6 +73,9 @@ func checkC18(repo, tier string, verifSeed uint64) int {
 		return 2
 	}
 	b.BuildS = time.Since(t0).Seconds()
+	if b.Hot != "" {
+		logf("calibration: packet kinds / unit operations that reach statements touching shared state (hex masks) = %s; workloads are biased towards them", b.Hot)
+	}
 	logf("built in %.1fs: %d files, %d yield sites, op_only=%v (%s), %d lock rewrites, %d once wraps", b.BuildS, b.Desc.Files, b.Desc.Sites, b.Desc.OpOnly, strings.Join(b.Desc.BlockingSync, "; "), b.Desc.LockRewrites, b.Desc.OnceWraps)
 	if len(b.Desc.PkgVars) > 0 {
 		logf("note: package-level variables that are not error sentinels: %v", b.Desc.PkgVars)
